@@ -3,7 +3,7 @@
    (a row that is not a `known:` line of known_findings.txt is a violation; the theorems of
    Proofs/TablesProofs.v fail on exactly those rows). *)
 From Coq Require Import NArith List String Bool Ascii.
-From Falco Require Import Base.TablesBase Model.ScopeMask Model.LintTables Model.LintOps Model.TablesDomain Model.InterpAssign.
+From Falco Require Import Base.TablesBase Model.ScopeMask Model.LintTables Model.LintOps Model.TablesDomain Model.InterpAssign Model.InterpVars.
 From Falco Require Import Gen.KnownGaps.
 From Falco Require Import Gen.LintConsts Gen.LintVars Gen.LintDyn Gen.LintFuncs Gen.RefVars Gen.RefFuncs Gen.InterpFuncs.
 From Falco Require Import Gen.ObsVars Gen.ObsFuncs Gen.ObsStmts Gen.ObsOps Gen.ObsWide Gen.ObsCoerce Gen.ObsInferred.
@@ -28,7 +28,11 @@ Definition gaps_vars : list gap_row :=
     let refb := match assoc t ref_vars with
                 | Some rv => bits_of (fun p => ref_var_allows rv op (mask_at p)) positions45
                 | None => 0 end in
+    let ib := fold_right (fun s acc => if interp_var_has n op s then N.lor (N.shiftl 1 s) acc else acc) 0 idx9 in
+    let regen := bits_of (fun p => all_scopes_test ib (mask_at p)) positions45 in
     row_if "var-model" n op (N.lor (N.lxor model ctx) (N.lxor model lint))
+    ++ row_if "var-interp-regen" n op
+         (bits_of (fun p => if Bool.eqb (N.testbit regen p) (N.testbit interp p) then false else negb (gap_covers "var-interp" n op p)) positions45)
     ++ row_if "var-ref" n op (N.lxor lint refb)
     ++ row_if "var-interp" n op (N.ldiff lint interp) end) obs_vars.
 
